@@ -17,6 +17,7 @@ struct cds_lfht_node **lf_canon_addr(struct cds_lfht_node **addr);
 #define VERIF_CMPXCHG_OVERRIDE
 unsigned long G_cas_count;
 void lf_cas_event(void *addr, void *oldv, void *newv);
+#include <verif/atomics_seq.h>
 #define uatomic_cmpxchg_mo(addr, old, _new, mos, mof)							\
 	__extension__ ({										\
 		__typeof__(addr) _va = (addr);								\
@@ -34,7 +35,6 @@ void lf_cas_event(void *addr, void *oldv, void *newv);
 		}											\
 		_vold;											\
 	})
-#include <verif/atomics_seq.h>
 #include <verif/lfht_pool.h>
 #define VERIF_LFHT_TAG_OVERRIDES
 
